@@ -74,6 +74,8 @@ impl UserPref {
                 )
             })
             .inspect(|entry| {
+                #[cfg(chokan_verif)]
+                crate::verif::count(&crate::verif::ENTRIES_SENT);
                 self.user_dictionary.add_entry(entry.clone());
                 tracing::info!("Learned new entry: {}", entry);
             })
